@@ -90,7 +90,7 @@ PROPS['C03'] = {
                  'Yabgp.C01_hold_timer_expires', 'Yabgp.C01_keepalive_msg', 'Yabgp.C01_update_msg',
                  'Yabgp.C01_open_accepted', 'Yabgp.C01_tcp_connected'],
     'genagree': SESSION_GEN,
-    'suites': ['session', 'hostile'],
+    'suites': ['session', 'hostile', 'rest'],
     'cannot': SESSION_CANNOT,
     'level_text': 'Lean 4 invariant proved by induction over ALL event sequences from boot (any configuration, any peer '
                   'schedule, any same-instant order of expiry and arrival, any number of sessions): in OpenConfirm / '
@@ -343,7 +343,7 @@ PROPS['C16'] = {
                  'Yabgp.C16_faithful_reachable', 'Yabgp.C06_roundtrip'],
     'genagree': SESSION_GEN + ['Yabgp.C16_routes_agree', 'Yabgp.C16_chain_as_installed', 'Yabgp.C16_auth_table',
                                'Yabgp.C16_gate_table', 'Yabgp.C16_known_table', 'Yabgp.C16_auth_config'],
-    'suites': ['rest'],
+    'suites': ['rest', 'commtext'],
     'cannot': SESSION_CANNOT + '; PARTIAL: a REST request is one atomic event - the worker-thread / reactor-thread '
               'interleaving (callFromThread write after the answer, Twisted calls from the worker thread) is not exhibited; '
               'extended-community text (C17), MP attributes (C07) and RIB bookkeeping (C19) of send/update are outside the model; '
